@@ -234,6 +234,9 @@ func (w *Worker) intrinsic(fn *ssa.Function, args []Value) (Value, bool) {
 		}
 		return tt.BV(64, uint64(s.B.ID)), true
 	}
+	if fn.Blocks != nil {
+		return nil, false // harness helper that merely shares the prefix
+	}
 	panic(unsupported("unknown intrinsic %s", name))
 }
 
